@@ -202,6 +202,19 @@ CHECKS["C12"] = (
     "DESIGN.md section 3 / C12",
 )
 
+CHECKS["C13"] = (
+    "Hypothesis (annotation, value) constructions - pool values and annotation-derived conforming / corrupted values - vs a reference conformance function, switch on and off",
+    "Seeded Hypothesis search over generated classes with 1-5 annotated fields (C11's accepted grammar to depth "
+    "3, init=False fields with right / wrong defaults) and values from a pool or derived from the annotation "
+    "with one targeted corruption; is_instance on every (value, resolved annotation) pair and the construction "
+    "under RUNTIME_TYPE_CHECK (success iff all fields conform, InvalidTypes.invalid_fields exactly the "
+    "non-conforming ones) are compared with an independent conformance function; with the switch off nothing "
+    "is validated and conforming input yields the same node. Bounded exploration.",
+    "Trusts Hypothesis and the reference conformance in pbt/props/c13.py; bool vs float and bool/int/float "
+    "crossings inside Literal are left open by the statement and not asserted.",
+    "DESIGN.md section 3 / C13",
+)
+
 NOT_YET = "check not built yet in this snapshot (see DESIGN.md section 9 build order); nothing is claimed"
 
 
